@@ -6,17 +6,21 @@ from kv import Case, xn, xb, xl, xlist, xopt, xbool, xparse
 
 ID = "C18"
 MODULE = "C18"
-IMPORTS = "Bytes RustInt Buffers BuffersProofs"
+IMPORTS = "Bytes RustInt Buffers BuffersProofs BuffersHttp1Link"
 PROFILES = ("dev", "nochk")
 EXHAUSTIVE = False
 KERNEL_SAMPLE = 40
 
-# KV_C18_LEGACY=1 compares the real read_to_end_or_max with the model of the code *before* the repair
-# (first call reserve(0, buffer)); used to replay the defect on the unrepaired tree.
-LEGACY = os.environ.get("KV_C18_LEGACY", "") == "1"
-READ = "buf.read.legacy" if LEGACY else "buf.read"
+# KV_C18_LEGACY=1 compares the real read_to_end_or_max with the model of the code *before both repairs*
+# (first call reserve(0, buffer), no drop guard), KV_C18_LEGACY=2 with the model of the code before the drop guard only;
+# used to replay the defects on the unrepaired trees.
+LEGACY = os.environ.get("KV_C18_LEGACY", "")
+READ = {"1": "buf.read.legacy", "2": "buf.read.unguarded"}.get(LEGACY, "buf.read")
 
 U64 = 2**64 - 1
+# The extracted model recurses over byte lists: bodies of 256 KiB overflow the OCaml stack (8 MiB) in the read / file
+# components, so no generated body, file or stream is longer than 128 KiB (half of that).
+MAX_BODY = 131072
 _pool_rng = random.Random(18)
 POOL = bytes(_pool_rng.randrange(256) for _ in range(1 << 17))
 
@@ -58,11 +62,13 @@ def rt_reserve(read, cap):
 # ---------------------------------------------------------------------------------------------
 # WriteableBytes
 # ---------------------------------------------------------------------------------------------
-def w_case(ctor, sizes, rng, kind, profile="dev"):
+def w_case(ctor, sizes, rng, kind, profile="dev", driver=None):
     if ctor[0] == "new":
         c = xl(xn(0))
     elif ctor[0] == "cap":
         c = xl(xn(1), xn(ctor[1]))
+    elif len(ctor) == 4:
+        c = xl(xn(2), xb(ctor[1]), xn(ctor[2]), xn(ctor[3]))
     else:
         c = xl(xn(2), xb(ctor[1]), xn(ctor[2]))
     off = rng.randrange(1 << 16)
@@ -70,7 +76,8 @@ def w_case(ctor, sizes, rng, kind, profile="dev"):
     for n in sizes:
         ws.append(xb(data(off, n)))
         off += n + 1
-    return Case("buf.writeable", xl(c, xlist(ws), junk(rng)), "buf.writeable.spec", {"kind": kind}, profile)
+    x = xl(c, xlist(ws), junk(rng)) if driver is None else xl(c, xlist(ws), junk(rng), xn(driver))
+    return Case("buf.writeable", x, "buf.writeable.spec", {"kind": kind}, profile)
 
 
 def w_ctor_state(ctor):
@@ -140,14 +147,33 @@ def gen_writeable(rng, tier):
     nseq = 700 if tier == "quick" else 12000
     for i in range(nseq):
         ct = rng.choice(ctors) if rng.random() < 0.7 else ("cap", rng.randrange(0, 5000))
+        if ct[0] == "from" and i % 2:
+            ct = ct + (rng.randrange(NSTORAGE),)      # the BytesMut handed to From in another representation
         sizes = w_threshold_sizes(rng, ct, rng.randrange(1, 9 if tier == "quick" else 16))
-        cases.append(w_case(ct, sizes, rng, "w-threshold", "nochk" if i % 5 == 0 else "dev"))
+        cases.append(w_case(ct, sizes, rng, "w-threshold", "nochk" if i % 5 == 0 else "dev",
+                            driver=None if i % 3 else rng.choice([1, 2, 3])))
+    # the sizes the callers really use: whole bodies through write_all / io::copy (8 KiB pieces), encoder output
+    # blocks of 16-128 KiB into with_capacity(len/3 + 64) (comprash.rs), a 128 KiB body in one write
+    big = [8191, 8192, 8193, 16384, 32768, 65536, 131072] if tier == "quick" else \
+          [6001, 8191, 8192, 8193, 12288, 16384, 32767, 32768, 32769, 65535, 65536, 65537, 100000, 131072]
+    for j, n in enumerate(big):
+        for ct in (("new",), ("cap", n // 3 + 64), ("cap", n), ("cap", n - 1), ("from", data(j, 100), 28)):
+            cases.append(w_case(ct, [n], rng, "w-large", PROFILES[j % 2], driver=j % 4))
+            cases.append(w_case(ct, [n // 2, n - n // 2, 1], rng, "w-large", PROFILES[(j + 1) % 2], driver=(j + 1) % 4))
+    for j in range(6 if tier == "quick" else 40):
+        total = rng.choice([20000, 70000, 120000])
+        sizes = []
+        while sum(sizes) < total:
+            sizes.append(rng.choice([8192, 8192, 4096, 16384, 32768, rng.randrange(1, 20000)]))
+        cases.append(w_case(("cap", sum(sizes) // 3 + 64), sizes, rng, "w-large-seq", PROFILES[j % 2], driver=j % 4))
     return cases
 
 
 # ---------------------------------------------------------------------------------------------
 # BytesCow::replace
 # ---------------------------------------------------------------------------------------------
+NKINDS = 7          # storage kinds of the harness (c18.rs make_cow)
+NSTORAGE = 5        # representations of a BytesMut handed to read_to_end_or_max / From<BytesMut> (c18.rs stored)
 ALPHA = b"abcdefghijklmnopqrstuvwxyz0123456789ABCDEFGHIJKLMNOPQRSTUVWXYZ_-"
 REP = b"#%&*+=?@^~" * 10
 
@@ -173,10 +199,11 @@ def gen_replace(rng, tier):
                 for rl in rls:
                     need = max(0, rl - width)
                     if tier == "quick":
-                        k += 1
-                        combos = [(k % 4, [0, 1, need, max(0, need - 1), need + 1, 3][k % 6], PROFILES[k % 2])]
+                        # storage kind, spare capacity and arithmetic mode drawn independently of each other
+                        combos = [(rng.randrange(NKINDS), rng.choice([0, 1, need, max(0, need - 1), need + 1, 3]),
+                                   rng.choice(PROFILES))]
                     else:
-                        combos = [(kd, sp, PROFILES[(kd + sp + rl) % 2]) for kd in range(4)
+                        combos = [(kd, sp, PROFILES[(kd + sp + rl) % 2]) for kd in range(NKINDS)
                                   for sp in sorted({0, max(0, need - 1), need, need + 1})]
                     for kd, sp, prof in combos:
                         cases.append(r_case(body, sp, s, e, REP[:rl], kd, rng, "r-exhaustive", prof))
@@ -191,7 +218,7 @@ def gen_replace(rng, tier):
                     continue
                 for rl in (0, 1, 3, 9):
                     for prof in PROFILES:
-                        cases.append(r_case(body, rl, s, e, REP[:rl], (s + e + rl) % 4, rng, "r-usize", prof))
+                        cases.append(r_case(body, rl, s, e, REP[:rl], (s + e + rl) % NKINDS, rng, "r-usize", prof))
     nrand = 2500 if tier == "quick" else 60000
     for _ in range(nrand):
         n = rng.randrange(0, 65)
@@ -208,7 +235,59 @@ def gen_replace(rng, tier):
             e = rng.randrange(0, n + 4)
         rl = rng.choice([0, 1, max(0, e - s), max(0, e - s) + 1, rng.randrange(0, 90)])
         sp = rng.choice([0, 0, 1, max(0, rl - max(0, e - s)), rng.randrange(0, 100)])
-        cases.append(r_case(body, sp, s, e, REP[:rl], rng.randrange(4), rng, "r-random", rng.choice(PROFILES)))
+        cases.append(r_case(body, sp, s, e, REP[:rl], rng.randrange(NKINDS), rng, "r-random", rng.choice(PROFILES)))
+    # whole pages: bodies of 4 KiB - 128 KiB, replacements up to 16 KiB, every storage kind
+    nbig = 40 if tier == "quick" else 600
+    for j in range(nbig):
+        n = rng.choice([4095, 4096, 4097, 8192, 20000, 65536] + ([100000, 131072] if j % 5 == 0 else []))
+        body = data(j * 7, n) if n <= 65536 else (POOL * 4)[j:j + n]
+        s_ = rng.choice([0, 1, n // 2, n - 1, n, rng.randrange(0, n + 1)])
+        e_ = rng.choice([s_, min(n, s_ + 1), min(n, s_ + 4096), n, rng.randrange(s_, n + 1)])
+        rl = rng.choice([0, 1, e_ - s_, e_ - s_ + 1, 4096, 16384, rng.randrange(0, 9000)])
+        rep = data(j * 13 + 5, rl)
+        sp = rng.choice([0, 1, max(0, rl - (e_ - s_)), 4096])
+        cases.append(r_case(body, sp, s_, e_, rep, j % NKINDS, rng, "r-large", PROFILES[j % 2]))
+    return cases
+
+
+def rs_case(body, spare, edits, kind_n, post, rng, kind, profile):
+    x = xl(xbool(profile == "dev"), xn(kind_n), xb(body), xn(spare),
+           xlist([xl(xn(s), xn(e), xb(r)) for s, e, r in edits]), xn(post), junk(rng))
+    return Case("buf.replace_seq", x, "buf.replace_seq.spec", {"kind": kind}, profile)
+
+
+def gen_replace_seq(rng, tier):
+    """chains of 0-10 edits on one BytesCow (what the Present extensions do), then deref / freeze / into_mut / ref_mut"""
+    cases = []
+    for kd in range(NKINDS):
+        for post in range(4):
+            cases.append(rs_case(b"0123456", 2, [], kd, post, rng, "rs-noedit", PROFILES[(kd + post) % 2]))
+            cases.append(rs_case(b"0123456", 2, [(2, 4, b"XXXXX"), (0, 1, b""), (9, 9, b"!")], kd, post, rng, "rs-corpus",
+                                 PROFILES[(kd + post + 1) % 2]))
+    n = 600 if tier == "quick" else 12000
+    for j in range(n):
+        ln = rng.choice([0, 1, 5, 40, 64, 300]) if j % 10 else rng.choice([4096, 20000])
+        body = bytes(rng.choice(ALPHA) for _ in range(ln)) if ln <= 300 else data(j, ln)
+        cur = ln
+        edits = []
+        for _ in range(rng.randrange(1, 11)):
+            r = rng.random()
+            if r < 0.9:
+                s_ = rng.randrange(0, cur + 1)
+                e_ = rng.choice([s_, cur, rng.randrange(s_, cur + 1)])
+            elif r < 0.96:           # reversed
+                e_ = rng.randrange(0, cur + 1)
+                s_ = rng.randrange(e_, cur + 3)
+            else:                    # out of bounds: the chain ends in a panic
+                s_ = rng.randrange(0, cur + 2)
+                e_ = cur + rng.randrange(1, 4)
+            rl = rng.choice([0, 1, max(0, e_ - s_), max(0, e_ - s_) + 1, rng.randrange(0, 60), 200])
+            edits.append((s_, e_, REP[:rl] if rl <= 100 else data(j + rl, rl)))
+            if e_ > cur:
+                break
+            cur = cur - (e_ - min(s_, e_)) + rl
+        cases.append(rs_case(body, rng.choice([0, 1, 3, 64, 500]), edits, rng.randrange(NKINDS), rng.randrange(4), rng,
+                             "rs-random", rng.choice(PROFILES)))
     return cases
 
 
@@ -251,21 +330,34 @@ def adaptive_chunks(rng, initlen, spare, total, style):
     return out
 
 
-def rd_case(init, spare, mx, sizes, rng, kind, fails=(), empties=False, profile="dev"):
+PEND = xl()
+
+
+def rd_case(init, spare, mx, sizes, rng, kind, fails=(), empties=False, profile="dev", pends=(), patience=None, storage=None):
+    """pends: indexes of chunks before which the reader answers Pending (len(sizes) = after the last chunk; an index may
+    occur several times); patience: None = the caller awaits to the end, k = it drops the future at the (k+1)-th Pending
+    (polled by hand), (0, ms) = the same by tokio::time::timeout"""
     off = rng.randrange(1 << 16)
     evs = []
     fails = dict(fails)
+    pends = list(pends)
     for i, n in enumerate(sizes):
+        evs += [PEND] * pends.count(i)
         if i in fails:
             evs.append(xn(fails[i]))
         if empties and i % 3 == 1:
             evs.append(xb(b""))
         evs.append(xb(data(off, n)))
         off += n
+    evs += [PEND] * pends.count(len(sizes))
     if len(sizes) in fails:
         evs.append(xn(fails[len(sizes)]))
-    x = xl(xb(init), xn(spare), xn(mx), xlist(evs), junk(rng))
-    return Case(READ, x, "buf.read.spec", {"kind": kind}, profile)
+    fields = [xb(init), xn(spare), xn(mx), xlist(evs), junk(rng)]
+    if patience is not None or pends or storage is not None:
+        fields.append(xl() if patience is None else xl(xn(patience)) if isinstance(patience, int) else xl(xn(0), xn(patience[1])))
+    if storage is not None:
+        fields.append(xn(storage))
+    return Case(READ, xl(*fields), "buf.read.spec", {"kind": kind}, profile)
 
 
 def maxes(initlen, total):
@@ -307,7 +399,7 @@ def gen_read(rng, tier):
         sizes = adaptive_chunks(rng, initlen, sp, total, st)
         mx = rng.choice(maxes(initlen, total) + [U64, U64, initlen + rng.randrange(0, total + 1)])
         cases.append(rd_case(data(i, initlen), sp, mx, sizes, rng, "rd-" + st, empties=(i % 4 == 0),
-                             profile="nochk" if i % 6 == 0 else "dev"))
+                             profile="nochk" if i % 6 == 0 else "dev", storage=None if i % 2 else rng.randrange(NSTORAGE)))
     # streams up to 64 KiB
     for total in ((16384, 65536) if tier == "quick" else (16384, 32768, 65535, 65536)):
         for st in ("fill", "rand", "thr"):
@@ -323,37 +415,192 @@ def gen_read(rng, tier):
         total = rng.choice([0, 1, 50, 1500, 6000])
         sizes = adaptive_chunks(rng, initlen, sp, total, "mix") if total else []
         pos = rng.randrange(0, len(sizes) + 1)
-        fails = {pos: rng.choice([1, 5, 104])}
+        # code mod 8 = io::ErrorKind on the real side: Other, Interrupted, WouldBlock, ConnectionReset, UnexpectedEof,
+        # TimedOut, BrokenPipe, ConnectionAborted
+        fails = {pos: rng.choice([8, 16, 1, 9, 2, 10, 3, 11, 4, 12, 5, 6, 7, 104])}
         if rng.random() < 0.2 and len(sizes) > 1:
-            fails[rng.randrange(0, len(sizes) + 1)] = 7
+            fails[rng.randrange(0, len(sizes) + 1)] = rng.choice([7, 1, 2, 3, 4])
         mx = rng.choice([U64, U64, initlen + sum(sizes[:pos]), initlen + sum(sizes[:pos]) + 1, max(0, initlen + sum(sizes[:pos]) - 1)])
-        cases.append(rd_case(data(i, initlen), sp, mx, sizes, rng, "rd-fail", fails=fails, empties=(i % 3 == 0)))
+        cases.append(rd_case(data(i, initlen), sp, mx, sizes, rng, "rd-fail", fails=fails, empties=(i % 3 == 0),
+                             storage=None if i % 3 else rng.randrange(NSTORAGE)))
+    # every error kind at every position of a short stream (a kind handled on its own would show here)
+    for code in range(8, 16):
+        for pos in range(0, 4):
+            for sp in (0, 100):
+                cases.append(rd_case(b"in", sp, U64, [3, 2000, 1], rng, "rd-fail-kind", fails={pos: code}))
+    cases += gen_pending(rng, tier)
+    return cases
+
+
+def gen_pending(rng, tier):
+    """readers that answer Pending, callers that wait and callers that drop the future (by hand and by timeout)"""
+    cases = []
+    # corpus: the input of the repaired defect (stale bytes visible after a cancellation) and its neighbours
+    for init, sp in ((b"in", 0), (b"in", 100), (b"", 0), (data(1, 40), 0), (data(1, 1000), 30)):
+        for sizes, pends in (([3, 2], [1]), ([3, 2], [0]), ([3, 2], [2]), ([3, 1, 1], [1, 2]), ([], [0]), ([2000, 2000], [1]),
+                             ([1] * 40, [40]), ([1] * 40, list(range(41)))):
+            for pat in (None, 0, 1):
+                cases.append(rd_case(init, sp, U64, sizes, rng, "rd-pend-corpus", pends=pends, patience=pat))
+            cases.append(rd_case(init, sp, len(init) + sum(sizes[:1]), sizes, rng, "rd-pend-corpus", pends=pends, patience=0))
+    n = 500 if tier == "quick" else 8000
+    for i in range(n):
+        initlen = rng.choice([0, 0, 3, 40, 1000])
+        sp = rng.choice([0, 1, 31, 32, 33, 100, 4096])
+        total = rng.choice([0, 1, 50, 1500, 6000]) if tier == "quick" or rng.random() < 0.9 else 30000
+        st = rng.choice(["mix", "fill", "thr", "small", "rand"])
+        if st == "small":
+            total = min(total, 3000)
+        sizes = adaptive_chunks(rng, initlen, sp, total, st) if total else []
+        npend = rng.choice([1, 1, 2, 3, 6])
+        pends = sorted(rng.randrange(0, len(sizes) + 1) for _ in range(npend))
+        pat = rng.choice([None, None, 0, 0, 1, npend - 1, npend, npend + 1])
+        fails = {}
+        if rng.random() < 0.25:
+            fails[rng.randrange(0, len(sizes) + 1)] = rng.choice([9, 10, 11, 12, 16])
+        cut = rng.choice(pends)
+        mx = rng.choice([U64, U64, U64, initlen + sum(sizes[:cut]), initlen + sum(sizes[:cut]) + 1, max(0, initlen + sum(sizes[:cut]) - 1)])
+        cases.append(rd_case(data(i, initlen), sp, mx, sizes, rng, "rd-pend", fails=fails, pends=pends, patience=pat,
+                             empties=(i % 5 == 0), profile="nochk" if i % 6 == 0 else "dev",
+                             storage=None if i % 3 else rng.randrange(NSTORAGE)))
+    # the cancellation as kvarn's callers do it: tokio::time::timeout around the helper, a reader that stalls for good.
+    # The reader has exactly one Pending and stalls there whenever it is polled, so how long the timeout is (and how
+    # loaded the machine is) cannot change the outcome: it only has to fire.
+    nt = 6 if tier == "quick" else 30
+    for i in range(nt):
+        initlen = rng.choice([0, 2, 40])
+        sp = rng.choice([0, 100, 4096])
+        sizes = [rng.choice([1, 3, 700, 2000]) for _ in range(rng.randrange(0, 4))]
+        at = rng.randrange(0, len(sizes) + 1)
+        cases.append(rd_case(data(i, initlen), sp, U64, sizes, rng, "rd-timeout", pends=[at], patience=(0, 25)))
     return cases
 
 
 def gen_file(rng, tier):
     sizes = [0, 1, 100, 4063, 4064, 4065, 4095, 4096, 4097, 8192, 65536]
     if tier != "quick":
-        sizes += [4096 - 33, 4096 - 31, 12287, 12288, 12289, 100000, 262144]
+        sizes += [4096 - 33, 4096 - 31, 12287, 12288, 12289, 100000, 131072]
     return [Case("buf.file", xl(xb(data(n, n) if n <= 65536 else (POOL * 3)[:n]), junk(rng)), "buf.file.spec", {"kind": "file"})
             for n in sizes]
 
 
+def f_case(ops, rng, kind):
+    return Case("buf.files", xl(xlist(ops), junk(rng)), "buf.files.spec", {"kind": kind})
+
+
+def F_WRITE(p, content, m):
+    return xl(xn(0), xn(p), xb(content), xn(m))
+
+
+def F_REMOVE(p):
+    return xl(xn(1), xn(p))
+
+
+def F_MKDIR(p, m):
+    return xl(xn(2), xn(p), xn(m))
+
+
+def F_READ(v, p, cached):
+    return xl(xn(3), xn(v), xn(p), xbool(cached))
+
+
+def F_EXTERNAL(p, path, content):
+    return xl(xn(4), xn(p), xb(path.encode()), xb(content))
+
+
+EXTERNAL_FILES = ["/proc/version", "/proc/sys/kernel/ostype", "/proc/filesystems"]
+
+
+def gen_files(rng, tier):
+    """histories of file changes and reads through file / file_cached / file_cached_with_mtime, with one FileCache and past it"""
+    cases = []
+    sizes = [0, 1, 100, 4063, 4064, 4065, 4095, 4096, 4097, 5999, 6000, 6001, 8192, 65536]
+    if tier != "quick":
+        sizes += [12288, 100000, 131072]
+    # every variant x cached/not on a fresh file of every size: miss, then hit, then past the cache
+    for j, n in enumerate(sizes):
+        c = data(n + j, n) if n <= 65536 else (POOL * 4)[j:j + n]
+        for v in range(3):
+            cases.append(f_case([F_WRITE(1, c, 10 + j), F_READ(v, 1, True), F_READ(v, 1, True), F_READ(v, 1, False),
+                                 F_READ((v + 1) % 3, 1, True), F_READ((v + 2) % 3, 1, True)], rng, "f-size"))
+    # a cached entry outlives the file: changed (longer, shorter, same length), removed, turned into a directory
+    for v in (1, 2):
+        for c1, c2 in ((b"first", b"second, longer"), (data(1, 7000), b"short"), (b"aaaa", b"bbbb"), (b"", b"x"), (b"x", b"")):
+            cases.append(f_case([F_WRITE(1, c1, 5), F_READ(v, 1, True), F_WRITE(1, c2, 9), F_READ(1, 1, True), F_READ(2, 1, True),
+                                 F_READ(0, 1, True), F_READ(0, 1, False), F_READ(2, 1, False)], rng, "f-stale"))
+            cases.append(f_case([F_WRITE(1, c1, 5), F_READ(v, 1, True), F_REMOVE(1), F_READ(1, 1, True), F_READ(2, 1, True),
+                                 F_READ(0, 1, True), F_READ(1, 1, False), F_READ(2, 1, False), F_READ(0, 1, False)], rng, "f-removed"))
+            cases.append(f_case([F_WRITE(1, c1, 5), F_READ(v, 1, True), F_MKDIR(1, 6), F_READ(v, 1, True), F_READ(v, 1, False)],
+                                rng, "f-stale"))
+    # what cannot be read: missing file, directory; the negative entry outlives the file's creation; `file` does not fill
+    for v in range(3):
+        cases.append(f_case([F_READ(v, 1, True), F_READ(v, 1, False), F_WRITE(1, b"now here", 3), F_READ(v, 1, True),
+                             F_READ(v, 1, False), F_READ(1, 1, True)], rng, "f-missing"))
+        cases.append(f_case([F_MKDIR(2, 4), F_READ(v, 2, True), F_READ(v, 2, False), F_REMOVE(2), F_WRITE(2, data(2, 5000), 8),
+                             F_READ(v, 2, True), F_READ(v, 2, False), F_READ(2, 2, True)], rng, "f-directory"))
+    # files whose metadata says 0 bytes (procfs): a reader that sized its buffer from the metadata would return nothing
+    for path in EXTERNAL_FILES:
+        try:
+            content = open(path, "rb").read()
+        except OSError:
+            continue
+        if not content:
+            continue
+        for v in range(3):
+            cases.append(f_case([F_EXTERNAL(7, path, content), F_READ(v, 7, False), F_READ(v, 7, True), F_READ(1, 7, True)],
+                                rng, "f-procfs"))
+    # random histories over three paths
+    n = 120 if tier == "quick" else 3000
+    for j in range(n):
+        ops = []
+        for _ in range(rng.randrange(2, 14)):
+            r = rng.random()
+            p = rng.randrange(1, 4)
+            if r < 0.3:
+                ln = rng.choice([0, 1, 10, 100, 4096, 5000, 7000])
+                ops.append(F_WRITE(p, data(j + ln + p, ln), rng.randrange(1, 1000)))
+            elif r < 0.38:
+                ops.append(F_REMOVE(p))
+            elif r < 0.44:
+                ops.append(F_MKDIR(p, rng.randrange(1, 1000)))
+            else:
+                ops.append(F_READ(rng.randrange(3), p, rng.random() < 0.7))
+        if not any(o[1][0][1] == 3 for o in ops):
+            ops.append(F_READ(rng.randrange(3), 1, True))
+        cases.append(f_case(ops, rng, "f-history"))
+    return cases
+
+
+def gen_encode(rng, tier):
+    """bodies compressed by the real gzip / brotli / zstd encoders into a WriteableBytes as comprash.rs does, decoded again"""
+    cases = []
+    texty = (b"<p>kvarn serves this paragraph again and again.</p>\n" * 4000)
+    sizes = [0, 1, 100, 5000, 70000, 131072] if tier == "quick" else [0, 1, 2, 63, 64, 65, 100, 191, 192, 193, 4096, 5000, 20000, 70000, 100000, 131072]
+    for j, n in enumerate(sizes):
+        for codec, levels in ((0, (1, 6)), (1, (3, 9) if tier != "quick" else (3,)), (2, (1, 9))):
+            for lv in levels:
+                for body in ((POOL * 2)[j:j + n], texty[:n]):     # incompressible: the output outgrows len/3 + 64 many times
+                    cases.append(Case("buf.encode", xl(xn(codec), xn(lv), xb(body), junk(rng)), "buf.encode.spec", {"kind": "encode"},
+                                      PROFILES[(j + codec + lv) % 2]))
+    return cases
+
+
 def generate(rng, tier):
-    return gen_read(rng, tier) + gen_writeable(rng, tier) + gen_replace(rng, tier) + gen_file(rng, tier)
+    return (gen_encode(rng, tier) + gen_read(rng, tier) + gen_writeable(rng, tier) + gen_replace(rng, tier) + gen_replace_seq(rng, tier) +
+            gen_file(rng, tier) + gen_files(rng, tier))
 
 
 # ---------------------------------------------------------------------------------------------
 # oracle: the specification evaluated on the implementation's answer
 # ---------------------------------------------------------------------------------------------
 def read_spec_holds(impl_text, spec_text):
-    """Model/Buffers.v [read_spec] on the implementation's answer.
-    spec = (L (B init) (B bytes-before-first-failure) (L [failure]) (N max))"""
+    """Model/Buffers.v [poll_spec] (= [read_spec] for a caller that awaits to the end) on the implementation's answer.
+    spec = (L (B init) (B bytes-before-first-failure) (L [failure]) (N max) (L [bytes-before-the-point-of-cancellation]))"""
     try:
         i = xparse(impl_text)
         s = xparse(spec_text)
-        init, pre, fail, mx = s[1][0][1], s[1][1][1], s[1][2][1], s[1][3][1]
+        init, pre, fail, mx, stall = s[1][0][1], s[1][1][1], s[1][2][1], s[1][3][1], s[1][4][1]
         fail = fail[0][1] if fail else None
+        stall = stall[0][1] if stall else None
         tag = i[1][0][1]
         if tag == 0:
             buf, consumed = i[1][1][1], i[1][2][1]
@@ -362,10 +609,18 @@ def read_spec_holds(impl_text, spec_text):
             taken = buf[len(init):]
             if not pre.startswith(taken) or consumed != len(taken):
                 return False
+            if stall is not None and consumed > len(stall):      # answered after the caller's patience had run out
+                return False
             return (taken == pre and fail is None) or len(buf) >= mx
         if tag == 1:
             e, buf, consumed = i[1][1][1], i[1][2][1], i[1][3][1]
+            if stall is not None and consumed > len(stall):
+                return False
             return fail == e and buf == init + pre and consumed == len(pre)
+        if tag == 4:
+            # cancelled: the old contents and exactly the bytes delivered before the future was dropped, nothing else
+            buf, consumed = i[1][1][1], i[1][2][1]
+            return stall is not None and buf == init + stall and consumed == len(stall) and len(buf) < mx
         return False
     except (IndexError, TypeError, AssertionError, ValueError):
         return False
@@ -377,11 +632,59 @@ def spec_ok(c, i, s):
     return i == s
 
 
+def _read_canon(c, text):
+    """What the property fixes of an answer of read_to_end_or_max.  When the helper stops because the soft maximum is
+    reached, how far it overshoots depends on the window it offered last (its growth constants 32 / 1024 / 2/3 and the
+    allocator's policy), which the property leaves open ("a prefix at least as long as the maximum"): such answers are
+    compared up to the maximum, and on "the reader lost nothing" (consumed = bytes gained).  Everything else -- the whole
+    stream, errors, cancellations, panics -- is compared exactly."""
+    try:
+        t = xparse(text)
+        if t[0] != "L" or not t[1] or t[1][0] != ("N", 0):
+            return text
+        x = c.x[1]
+        initlen, mx = len(x[0][1]), x[2][1]
+        buf, consumed = t[1][1][1], t[1][2][1]
+        if len(buf) >= mx:
+            return ("stopped-at-max", buf[:max(mx, initlen)], consumed == len(buf) - initlen)
+        return text
+    except (IndexError, TypeError, AssertionError, ValueError):
+        return text
+
+
+def compare(c, i, m):
+    if c.comp.startswith("buf.read"):
+        return _read_canon(c, i) == _read_canon(c, m)
+    return i == m
+
+
+def extra_coverage(cases, impl, model, spec):
+    """cases whose answers agree on what the property fixes but not byte for byte: the model's growth constants have
+    drifted from the code's (a note, not a verdict)"""
+    def modelled_storage(c):
+        x = c.x[1]
+        return len(x) < 7 or x[6][1] == 0
+    drift_all = [c for c in cases if c.comp.startswith("buf.read") and c.id in impl and c.id in model
+                 and impl[c.id] != model[c.id] and compare(c, impl[c.id], model[c.id])]
+    drift = [c.id for c in drift_all if modelled_storage(c)]
+    other = [c.id for c in drift_all if not modelled_storage(c)]
+    junk_dependent = [c.id for c in cases if impl.get(c.id, "").startswith("(L (N 91)")]
+    return {"read_overshoot_drift": {"cases": len(drift), "first_ids": drift[:10],
+                                     "meaning": "on a fresh buffer (the storage whose growth the model transcribes) implementation and model "
+                                                "stop at different lengths >= max: the model's window constants (32 / 1024 / 2/3, Vec growth) "
+                                                "differ from the code's; allowed by the property, but the model should follow"},
+            "read_overshoot_other_storage": {"cases": len(other),
+                                             "meaning": "the same on buffers in representations that grow differently from a fresh vector "
+                                                        "(advanced, shared, reclaimable): expected"},
+            "answers_depending_on_uninitialised_memory": len(junk_dependent),
+            "poison_runs_per_case": 2}
+
+
 def signature(c, m):
     comp = c.comp
     if comp.startswith("buf.read"):
-        cls = {"(L (N 0)": "ok", "(L (N 1)": "ioerr"}.get(m[:8], "other")
-    elif comp == "buf.replace":
+        cls = {"(L (N 0)": "ok", "(L (N 1)": "ioerr", "(L (N 4)": "cancelled"}.get(m[:8], "other")
+    elif comp.startswith("buf.replace"):
         cls = "panic" if m.startswith("(L (N 2)") else "ok"
     else:
         cls = "ok" if m.startswith("(L (N 0)") else "other"
@@ -408,7 +711,16 @@ def directed(rng, mismatches):
                     for kd in range(4):
                         for prof in PROFILES:
                             cases.append(r_case(ALPHA[:n], (s + e) % 3, s, e, REP[:rl], kd, r, "directed-replace", prof))
+    for initlen in (0, 2, 40):
+        for sp in (0, 1, 31, 32, 33, 100):
+            for sizes in ([], [1], [3, 2], [40, 40], [3000]):
+                for at in range(len(sizes) + 1):
+                    for pat in (None, 0, 1):
+                        cases.append(rd_case(data(2, initlen), sp, U64, sizes, r, "directed-pend", pends=[at], patience=pat))
+                        cases.append(rd_case(data(2, initlen), sp, U64, sizes, r, "directed-pend", pends=[at, at], patience=pat))
+    cases += gen_replace_seq(r, "quick")[:400]
     cases += gen_file(r, "thorough")
+    cases += gen_files(r, "quick")
     return cases
 
 
@@ -422,61 +734,128 @@ THEOREMS = [
      r"forall grow junk (c : wctor) (writes : list bytes), grow_ok grow -> wb_session grow junk c writes = Ok (wctor_init c ++ concat writes)"),
     ("writeable_from_any_buffer",
      r"forall grow junk (b : buf) (writes : list bytes), grow_ok grow -> wf b -> exists w w' b', wb_from b = Ok w /\ wb_writes grow junk w writes = Ok w' /\ wb_into_inner w' = Ok b' /\ wf b' /\ contents b' = contents b ++ concat writes"),
+    ("writeable_counts",
+     r"forall grow junk (c : wctor) (writes : list bytes), grow_ok grow -> wb_session_n grow junk c writes = Ok (wctor_init c ++ concat writes, length (concat writes))"),
     ("replace_is_splice",
      r"forall grow junk (checked : bool) (b : buf) (s e : N) (rep : bytes), grow_ok grow -> wf b -> fits b rep -> s <= e -> e <= N.of_nat (b_len b) -> exists b', cow_replace grow junk checked b s e rep = Ok b' /\ wf b' /\ contents b' = splice (N.to_nat s) (N.to_nat e) rep (contents b)"),
     ("replace_panics_iff",
      r"forall grow junk (checked : bool) (b : buf) (s e : N) (rep : bytes), grow_ok grow -> wf b -> fits b rep -> (cow_replace grow junk checked b s e rep = Panic <-> N.of_nat (b_len b) < e)"),
     ("replace_complete",
      r"forall grow junk (checked : bool) (b : buf) (s e : N) (rep : bytes), grow_ok grow -> wf b -> fits b rep -> if e <=? N.of_nat (b_len b) then exists b', cow_replace grow junk checked b s e rep = Ok b' /\ wf b' /\ contents b' = splice (N.to_nat (N.min s e)) (N.to_nat e) rep (contents b) else cow_replace grow junk checked b s e rep = Panic"),
+    ("replace_both_representations",
+     r"forall grow junk (checked : bool) (c : cow) (s e : N) (rep : bytes), grow_ok grow -> cow_wf c -> fits_bytes (cow_bytes c) rep -> if e <=? N.of_nat (length (cow_bytes c)) then exists c', cow_replace_c grow junk checked c s e rep = Ok c' /\ cow_wf c' /\ cow_bytes c' = splice (N.to_nat (N.min s e)) (N.to_nat e) rep (cow_bytes c) else cow_replace_c grow junk checked c s e rep = Panic"),
+    ("replace_chain_is_splice_chain",
+     r"forall grow junk (checked : bool) (es : list edit) (c : cow), grow_ok grow -> cow_wf c -> fits_edits (cow_bytes c) es -> match splice_edits (cow_bytes c) es with | Ok d => exists c', cow_edits grow junk checked c es = Ok c' /\ cow_wf c' /\ cow_bytes c' = d | Panic => cow_edits grow junk checked c es = Panic | Err _ => False end"),
     ("read_all_or_prefix",
      r"forall grow junk (b : buf) (chunks : list bytes) (max : N), grow_ok grow -> wf b -> exists b' rest taken, read_to_end_or_max grow junk false b (data_stream chunks) max = RDone b' rest /\ contents b' = contents b ++ taken /\ concat chunks = taken ++ fst (pre_fail rest) /\ (taken = concat chunks \/ max <= N.of_nat (length (contents b')))"),
     ("read_with_failures",
      r"forall grow junk (b : buf) (cs : stream) (max : N), grow_ok grow -> wf b -> read_spec (contents b) cs max (read_to_end_or_max grow junk false b cs max)"),
+    ("read_cancel_safe",
+     r"forall grow junk (b : buf) (cs : stream) (max : N) (patience : option nat), grow_ok grow -> wf b -> poll_spec (contents b) cs max patience (read_poll grow junk false true b cs max patience)"),
+    ("read_awaited",
+     r"forall grow junk (legacy : bool) (b : buf) (cs : stream) (max : N), (forall guard b' rest, read_poll grow junk legacy guard b cs max None <> RCancelled b' rest) /\ read_poll grow junk legacy false b cs max None = read_poll grow junk legacy true b cs max None"),
+    ("unguarded_cancel_shows_junk",
+     r"forall grow junk (b : buf) (cs : stream) (max : N) (patience : option nat) b' rest, grow_ok grow -> wf b -> read_poll grow junk false false b cs max patience = RCancelled b' rest -> exists k pre, patience = Some k /\ before_stall k cs = Some (pre, rest) /\ b_len b' = capacity b' /\ firstn (length (contents b) + length pre) (contents b') = contents b ++ pre /\ (length (contents b) + length pre < length (contents b'))%nat"),
+    ("unguarded_cancel_refuted",
+     r"exists b cs max k, wf b /\ ~ poll_spec (contents b) cs max (Some k) (read_poll grow_vec (junk_of []) false false b cs max (Some k))"),
+    ("read_reserve_transcriptions_agree",
+     r"forall growH growB junk (read : nat) (b : buf), grows_agree growH growB -> grow_ok growB -> b_len b = capacity b -> (read <= capacity b)%nat -> exists b2, rtm_reserve growB junk read b = Ok b2 /\ capacity b2 = Http1Read.rtem_reserve growH read (capacity b) /\ b_len b2 = capacity b2 /\ (read + 32 <= capacity b2)%nat /\ firstn (capacity b) (b_data b2) = b_data b"),
+    ("read_loop_transcriptions_agree",
+     r"forall growH growB junk mode (max : nat), grows_agree growH growB -> grow_ok growB -> forall fuel buf cap tl d sched b cs, Http1Read.sched_pos sched -> b_len b = capacity b -> capacity b = cap -> firstn (length buf) (b_data b) = buf -> (length buf < cap)%nat -> translates cs mode d sched tl -> same_answer (Http1Read.rtem_loop growH fuel mode max buf cap tl (Http1Read.mk_reader d sched)) (rtm_loop growB junk true fuel (N.of_nat max) (length buf) b cs (Some 0%nat))"),
+    ("read_to_bytes_uses_read_poll",
+     r"forall growH growB junk mode early cl limit d sched, grows_agree growH growB -> grow_ok growB -> Http1Read.sched_pos sched -> let len := N.to_nat (N.min cl limit) in let buf := firstn len early in (length buf < len)%nat -> same_answer (Http1Read.read_to_bytes growH mode early cl limit (Http1Read.mk_reader d sched)) (read_poll growB junk false true (bm_of junk buf (len - length buf)) (strm mode d sched (len - length buf)) (N.of_nat len) (Some 0%nat))"),
     ("read_file_whole",
      r"forall grow junk (chunks : list bytes), grow_ok grow -> N.of_nat (length (concat chunks)) < u64_max -> read_file grow junk (data_stream chunks) = Ok (concat chunks)"),
     ("read_file_complete",
      r"forall grow junk (cs : stream), grow_ok grow -> N.of_nat (stream_len cs) < u64_max -> read_file grow junk cs = match snd (pre_fail cs) with None => Ok (fst (pre_fail cs)) | Some _ => Err 0 end"),
+    ("files_transparent",
+     r"forall grow junk now (ops : list fop), grow_ok grow -> Forall op_small ops -> files_run (fs_read grow junk) now [] [] ops = files_run fs_content now [] [] ops"),
+    ("files_answers_are_file_contents",
+     r"forall grow junk now (ops : list fop) (rs : list fres), grow_ok grow -> Forall op_small ops -> files_run (fs_read grow junk) now [] [] ops = Ok rs -> answers_ok [] [] ops rs"),
+    ("file_cached_hit",
+     r"forall reader now v fs p c opt, alookup p c = Some opt -> fc_read reader now v fs p (Some c) = Ok (match opt with | None => None | Some (m, d) => Some (d, match v with VCachedMtime => Some m | _ => None end) end, Some c)"),
+    ("file_cached_miss",
+     r"forall now v fs p c, alookup p c = None -> v <> VFile -> exists m0, fc_read fs_content now v fs p (Some c) = Ok (match content_of fs p with | None => (None, Some ((p, None) :: c)) | Some d => (Some (d, match v with VCachedMtime => Some m0 | _ => None end), Some ((p, Some (m0, d)) :: c)) end) /\ (forall d, content_of fs p = Some d -> fs_stat fs p = Some m0)"),
     ("no_junk",
-     r"forall grow j1 j2, grow_ok grow -> (forall c writes, wb_session grow j1 c writes = wb_session grow j2 c writes) /\ (forall checked b1 b2 s e rep, wf b1 -> wf b2 -> fits b1 rep -> contents b1 = contents b2 -> match cow_replace grow j1 checked b1 s e rep, cow_replace grow j2 checked b2 s e rep with | Ok r1, Ok r2 => contents r1 = contents r2 | Panic, Panic => True | _, _ => False end) /\ (forall b1 b2 cs max, wf b1 -> wf b2 -> contents b1 = contents b2 -> capacity b1 = capacity b2 -> same_obs (read_to_end_or_max grow j1 false b1 cs max) (read_to_end_or_max grow j2 false b2 cs max)) /\ (forall cs, N.of_nat (stream_len cs) < u64_max -> read_file grow j1 cs = read_file grow j2 cs)"),
+     r"forall grow j1 j2, grow_ok grow -> (forall c writes, wb_session grow j1 c writes = wb_session grow j2 c writes) /\ (forall checked b1 b2 s e rep, wf b1 -> wf b2 -> fits b1 rep -> contents b1 = contents b2 -> match cow_replace grow j1 checked b1 s e rep, cow_replace grow j2 checked b2 s e rep with | Ok r1, Ok r2 => contents r1 = contents r2 | Panic, Panic => True | _, _ => False end) /\ (forall b1 b2 cs max patience, wf b1 -> wf b2 -> contents b1 = contents b2 -> capacity b1 = capacity b2 -> same_obs (read_poll grow j1 false true b1 cs max patience) (read_poll grow j2 false true b2 cs max patience)) /\ (forall cs, N.of_nat (stream_len cs) < u64_max -> read_file grow j1 cs = read_file grow j2 cs)"),
     ("legacy_read_ok_with_room",
      r"forall grow junk (b : buf) (cs : stream) (max : N), grow_ok grow -> wf b -> (b_len b < capacity b \/ capacity b < 32)%nat -> read_spec (contents b) cs max (read_to_end_or_max grow junk true b cs max)"),
     ("legacy_read_refuted",
      r"exists b cs max, wf b /\ ~ read_spec (contents b) cs max (read_to_end_or_max grow_vec (junk_of []) true b cs max)"),
 ]
 
-RULE = ("direct calls of kvarn_utils::WriteableBytes (new / with_capacity / From<BytesMut>, write*, into_inner), "
-        "kvarn_utils::BytesCow::replace (Ref and three kinds of Mut storage, overflow checks on and off), "
-        "kvarn_async::read_to_end_or_max driven by a scripted AsyncRead on a current-thread tokio runtime, and kvarn::read::file on a temp "
-        "file under .run/, each against the Coq model (correspondence, exact equality incl. bytes consumed from the reader) and against "
-        "the Coq specification (oracle). Writes: every single-write size around every capacity 0..11 and 126..130, pairs landing on the "
-        "boundary left by the first write, random sequences with sizes 0, 1, room-1, room, room+1, 4 KiB, around 128/192/256. "
-        "replace: every (start, end, replacement length) on bodies of 0..8 bytes incl. reversed and out-of-bounds ranges "
-        "(bounded-exhaustive; thorough: x 4 storage kinds x spare capacities), usize boundary values, random on bodies up to 64 bytes. "
-        "Streams: initial length x spare capacity around the 32-byte threshold x maxima; single-byte reads; chunks generated against a "
-        "simulation of the capacity so that reads fill the spare capacity exactly / +-1 / leave 31,32,33 bytes; streams of 16-64 KiB; "
-        "empty chunks; failing readers. distinct_nontrivial counts distinct (component, input, outcome class) triples")
+RULE = ("direct calls of kvarn_utils::WriteableBytes (new / with_capacity / From<BytesMut>; write, write_all, io::copy, write_vectored; "
+        "into_inner), kvarn_utils::BytesCow::replace (Ref, a Ref cut out of a larger Bytes, and five kinds of Mut storage: plain, "
+        "advanced, shared with a live tail, reclaimable, unique Arc; overflow checks on and off), chains of up to 10 replace calls on one "
+        "BytesCow followed by deref / freeze / into_mut / ref_mut, real gzip / brotli / zstd encoders writing into a WriteableBytes as "
+        "comprash.rs sets it up (decoded again with the standard decoders), kvarn_async::read_to_end_or_max on buffers in five "
+        "representations (fresh, advanced, shared, unique Arc, reclaimable) driven by a scripted AsyncRead "
+        "(data, failures of eight io::ErrorKinds, Pending) whose future is polled by hand, dropped at a chosen Pending, or run under "
+        "tokio::time::timeout with a reader that stalls for good, kvarn::read::file on a temp file, and histories of file changes and "
+        "reads through kvarn::read::{file, file_cached, file_cached_with_mtime} with one real FileCache and past it -- each against "
+        "the Coq model (correspondence) and against the Coq specification (oracle). Every case runs the real code twice under a "
+        "poisoning global allocator (fresh, grown and freed memory filled with 0xA5 / 0x3C): an answer that differs between the two "
+        "runs contains bytes nobody wrote. Writes: every single-write size around every capacity 0..11 and 126..130, pairs landing on "
+        "the boundary left by the first write, random sequences with sizes 0, 1, room-1, room, room+1, 4 KiB, around 128/192/256, "
+        "whole bodies of 8 KiB - 128 KiB in one piece and in 8-32 KiB pieces into with_capacity(len/3+64). replace: every (start, end, "
+        "replacement length) on bodies of 0..8 bytes incl. reversed and out-of-bounds ranges (bounded-exhaustive; storage kind, spare "
+        "capacity and arithmetic mode drawn independently; thorough: all combinations), usize boundary values, random on bodies up to "
+        "64 bytes, bodies of 4 KiB - 128 KiB with replacements up to 16 KiB. Streams: initial length x spare capacity around the "
+        "32-byte threshold x maxima; single-byte reads; chunks generated against a simulation of the capacity so that reads fill the "
+        "spare capacity exactly / +-1 / leave 31,32,33 bytes; streams of 16-64 KiB; empty chunks; failing readers (every kind at every "
+        "position); 1-6 Pendings at random positions with a caller that waits, that drops the future at the 1st..n-th Pending, or "
+        "whose patience outlasts the stream. Files: sizes 0..64 KiB (128 KiB thorough) around 4096 and 6000 x the three functions x "
+        "miss / hit / no cache; files changed, shortened, removed or turned into a directory behind a cached entry; missing files and "
+        "directories (negative entries); procfs files (length 0 in the metadata); random histories over three paths. "
+        "distinct_nontrivial counts distinct (component, input, outcome class) triples")
 ASSUMPTIONS = [
-    "allocation sizes fit: 2*len + replacement length <= 2^64-1 in replace (hypothesis `fits` of the replace theorems); "
-    "n*3/2+128 and capacity*2/3 do not overflow usize (lengths are unbounded naturals in the model of WriteableBytes and read_to_end_or_max)",
+    "allocation sizes fit: 2*len + replacement length <= 2^64-1 in replace (hypotheses `fits` / `fits_bytes` / `fits_edits` of the "
+    "replace theorems); n*3/2+128 and capacity*2/3 do not overflow usize (lengths are unbounded naturals in the model of WriteableBytes "
+    "and read_to_end_or_max); files are shorter than 2^64-1 bytes (`op_small`)",
     "the allocator only promises capacity >= requested (hypothesis grow_ok) and BytesMut::reserve keeps the visible len bytes; "
     "bytes beyond len are arbitrary (parameter junk); the correspondence instantiates grow with Vec's amortised growth max(8, 2*cap, need)",
-    "an AsyncRead returns between 1 and room bytes per successful read while data remains and 0 bytes at the end of the stream "
-    "(stream = list of Data/Fail events); Pending/wake-ups are not modelled (the helper only awaits)",
-    "kvarn::read::file: the file is a stream (tokio::fs::File); the uring code path (feature uring, off in `full`) is not modelled",
+    "an AsyncRead returns between 1 and room bytes per successful read while data remains, writes them to the front of the window, "
+    "and returns 0 bytes only at the end of the stream (stream = list of Data / Fail / Pend events); it may return Pending any number "
+    "of times and the caller may drop the future at any of them; a reader that claims bytes it did not write, or answers 0 bytes and "
+    "later delivers more, is outside the model",
+    "the helper treats every io::ErrorKind alike (passes the error on): the model's failure carries a code, the real side maps "
+    "code mod 8 to Other / Interrupted / WouldBlock / ConnectionReset / UnexpectedEof / TimedOut / BrokenPipe / ConnectionAborted",
+    "kvarn::read::*: a file is a stream and a modification time that do not change during one call; stat succeeds whenever the file "
+    "can be opened; the FileCache (moka, 1024 entries) evicts nothing during a case and returns an inserted entry at once; the uring "
+    "code path (feature uring, off in `full`) is not modelled",
+    "when read_to_end_or_max stops at the soft maximum, how far it overshoots (its window constants 32 / 1024 / 2/3 and the allocator's "
+    "growth) is not fixed by the property: implementation and model are compared up to the maximum there, byte for byte everywhere "
+    "else; cases where they overshoot differently are counted in coverage.read_overshoot_drift",
 ]
-TRUSTED = ["modelled: utils/src/lib.rs WriteableBytes (new, with_capacity, From<BytesMut>, write, into_inner) and BytesCow::replace; "
-           "async/src/lib.rs read_to_end_or_max (+ inner reserve); src/read.rs read/file (non-uring); bytes::BytesMut::{reserve,set_len}, "
-           "slice::{copy_within,copy_from_slice} by their documented contracts"]
-LEVEL_TEXT = ("Machine-checked Coq theorems over a model of the three helpers in which a buffer is (allocation contents, visible length), "
+TRUSTED = ["modelled: utils/src/lib.rs WriteableBytes (new, with_capacity, From<BytesMut>, write, into_inner) and BytesCow "
+           "(replace, ref_mut / take_mut, freeze, into_mut); async/src/lib.rs read_to_end_or_max (+ inner reserve, the Restore drop "
+           "guard) as a state machine over polls; src/read.rs read / file / file_cached / file_cached_with_mtime (non-uring) over "
+           "a FileCache; bytes::BytesMut::{reserve,set_len}, slice::{copy_within,copy_from_slice}, BytesMut::from(&[u8]), "
+           "moka::sync::Cache::{get,insert} by their documented contracts",
+           "the harness's poisoning #[global_allocator] (harness/src/c18.rs, pass-through unless a C18 component switches it on) "
+           "and its scripted AsyncRead / hand-written poll loop"]
+LEVEL_TEXT = ("Machine-checked Coq theorems over a model of the helpers in which a buffer is (allocation contents, visible length), "
               "growth goes through an arbitrary allocation policy and uninitialised memory is an arbitrary parameter: WriteableBytes = append "
-              "for every constructor, capacity and write sequence; BytesCow::replace = splice for every in-bounds range, panic exactly when the "
-              "end lies beyond the body (both overflow modes); read_to_end_or_max returns the old contents plus the whole stream or a prefix "
-              "reaching max, for every chunking and every failing reader; read::file returns the whole file; none of the results depends on "
-              "uninitialised memory. The model is tied to /repo on every run by a differential run of the real functions (scripted AsyncRead on "
-              "a tokio current-thread runtime, temp file for read::file) against the extracted model, with exact equality of results.")
+              "for every constructor, capacity and write sequence, and the counts write returns add up; BytesCow::replace = splice for "
+              "every in-bounds range on both representations, panic exactly when the end lies beyond the body (both overflow modes), "
+              "chains of edits = chains of splices; read_to_end_or_max, modelled at the level of polls, returns the old contents plus the "
+              "whole stream or a prefix reaching max for every chunking, every failing reader and every number of Pending answers, and "
+              "when the caller drops the future at any Pending (a timeout) the buffer is well formed and holds exactly the old contents "
+              "plus the bytes delivered so far (the code before the repair made here left >= 1 uninitialised byte visible: theorem + "
+              "refutation witness); read::file returns the whole file; file / file_cached / file_cached_with_mtime over any history of "
+              "file changes answer exactly what the file held, bytes and mtime, at some moment up to the read (at the read itself with "
+              "no cache), a cached entry is stable, None is cached exactly when the read failed; none of the results depends on "
+              "uninitialised memory, cancellation included; the second transcription of read_to_end_or_max in Model/Http1Read.v "
+              "(used by C02/C07/C20) is proved to be the same function. The model is tied to the repo on every run by a differential "
+              "run of the real functions against the extracted model, and every real run is repeated under two allocator poison bytes.")
 LEVEL_NOTE = ("Trusted: Coq kernel, extraction (ExtrOcamlBasic) reduced by an in-kernel recheck sample, the hand transcription of "
               "utils/src/lib.rs, async/src/lib.rs and src/read.rs into Model/Buffers.v as validated by the differential run, the documented "
-              "contracts of BytesMut::reserve/set_len and slice::copy_within/copy_from_slice. The real side cannot choose the contents of "
-              "uninitialised memory, so junk-independence of the implementation rests on the theorem plus the model correspondence. No axioms. "
-              "One defect found and repaired: read_to_end_or_max read nothing into a full buffer of >= 32 bytes (theorem legacy_read_refuted).")
-TECHNIQUE = "Coq proof (model = spec for all inputs, capacities, growth policies and junk) + differential correspondence model vs. implementation"
+              "contracts of BytesMut::reserve/set_len/from, slice::copy_within/copy_from_slice and moka's get/insert. Junk-independence of "
+              "the implementation is now also observed: the harness poisons fresh, grown and freed memory with two different bytes and "
+              "requires identical answers (what it cannot see: reliance on the allocator copying bytes beyond len on realloc, which leaves "
+              "the answer right). Not covered: io_uring path, eviction from the FileCache, files changing during one call, readers "
+              "violating the AsyncRead contract. No axioms. Three defects found and repaired: read_to_end_or_max read nothing into a full "
+              "buffer of >= 32 bytes (legacy_read_refuted); it left the buffer's length at its capacity when its future was dropped "
+              "(unguarded_cancel_refuted, reproduced under tokio::time::timeout with poisoned memory); read::stat failed on file systems "
+              "without a creation time, so file_cached_with_mtime answered None for readable files (found by the procfs cases).")
+TECHNIQUE = "Coq proof (model = spec for all inputs, capacities, growth policies, junk, Pending/cancellation schedules and file histories) + differential correspondence model vs. implementation under a poisoning allocator"
